@@ -185,7 +185,10 @@ def run(ctx):
         for v in vs:
             v.result()
     # mode "shl" (repaired model) is part of the regular configurations unless the tree still has the as-found operator<<
-    modes = ALL_MODES + (["shl"] if check_shl(ctx, rp, env) else [])
+    shl_fixed = check_shl(ctx, rp, env)
+    modes = ALL_MODES + (["shl"] if shl_fixed else [])
+    # re-arming through operator<< is replayed only on a tree with the repaired operator<<
+    ways = ALL_WAYS if shl_fixed else ["assign"]
     seq_must = ["LateInit", "GetPromise", "NullPoll", "PrePload", "PreFence", "PreFinal", "PreDload", "Copy"]
     if ctx.quick:
         ctx.exhaustive = False
@@ -202,10 +205,11 @@ def run(ctx):
         tlc_only(ctx, "live", h2, ["fn", "late"], kinds, co=["h1"], bl=["h2"], cb=["h2"], copies=1, handles=1)
         # rounds: a resolved state re-armed (operator<< pending / ready, assignment of a new shared_future) for a second
         # and third round, copies / awaiters / drops in every round
-        run_cfg(ctx, rp, "r1", h1, ["fn", "setval"], ["val", "drop"], co=h1, copies=1, handles=2, rounds=3, ways=ALL_WAYS,
-                must=["ReArmShl", "ReArmAssign"])
-        run_cfg(ctx, rp, "r2", h2, ["fn"], ["val"], co=["h1"], bl=["h2"], copies=1, handles=1, rounds=2, ways=["shl"],
-                must=["ReArmShl"], max_paths=700)
+        run_cfg(ctx, rp, "r1", h1, ["fn", "setval"], ["val", "drop"], co=h1, copies=1, handles=2, rounds=3, ways=ways,
+                must=["ReArmAssign"] + (["ReArmShl"] if shl_fixed else []))
+        if shl_fixed:
+            run_cfg(ctx, rp, "r2", h2, ["fn"], ["val"], co=["h1"], bl=["h2"], copies=1, handles=1, rounds=2, ways=["shl"],
+                    must=["ReArmShl"], max_paths=700)
         # sanitized replays (this one and c1; no weak_ptr probe): a touch of the state after the last reference is gone
         # aborts the replayer
         run_cfg(ctx, rp_asan, "a1", h1, ["fn", "late", "retfut", "async"], ["val", "dtor"], co=h1, cb=h1, copies=1, handles=1, env=asan_env)
@@ -225,9 +229,9 @@ def run(ctx):
         run_cfg(ctx, rp, "c6", h2, ["init"], ["val", "dtor"], co=["h2"], bl=["h1"], po=["h2"], copies=2, handles=2, env=env, must=["GetPromise"])
         run_cfg(ctx, rp, "t3", ["h1", "h2", "h3"], ["fn"], ["val"], co=["h2"], bl=["h3"], copies=2, handles=1, env=env)
         run_cfg(ctx, rp, "r1", h1, ["fn", "setval", "late", "retfut"], ALL_KINDS, co=h1, bl=h1, copies=1, handles=2, rounds=3,
-                ways=ALL_WAYS, env=env, max_paths=6000, must=["ReArmShl", "ReArmAssign"])
+                ways=ways, env=env, max_paths=6000, must=["ReArmAssign"] + (["ReArmShl"] if shl_fixed else []))
         run_cfg(ctx, rp, "r2", h2, ["fn", "init"], ["val", "dtor"], co=["h1"], bl=["h2"], po=["h2"], copies=2, handles=1, rounds=2,
-                ways=ALL_WAYS, env=env, max_paths=6000, must=["ReArmShl"])
+                ways=ways, env=env, max_paths=6000, must=["ReArmShl"] if shl_fixed else [])
         # larger bounds, specification only
         tlc_only(ctx, "big", h2, ["fn"], ["val"], co=h2, bl=h2, cb=[], po=h2, copies=2, handles=2)
     ctx.assume("compare_exchange_weak does not fail spuriously (x86-64 lock cmpxchg); weak CAS is executed as strong under the controlled scheduler")
